@@ -17,7 +17,8 @@ M     := (NAME DS DECLR BF)                    BF = 0 | 1
 DS    := (KW SPEC)                             KW = 0 | 1   (`_Atomic` keyword among the specifiers)
 SPEC  := bool|char|uchar|short|ushort|int|uint|long|ulong|float|double|ldouble|void|enum
        | (tdef NAME) | (struct TAG) | (union TAG) | (typeofT DS DECLR) | (typeofE E) | (atomicOf DS DECLR)
-DECLR := n | (p DECLR) | (a DECLR N) | (f DECLR) | (g DECLR)          p = `*D`, a = `D[N]`, f = `D(void)`, g = `(D)`
+DECLR := n | (p DECLR Q*) | (a DECLR N) | (f DECLR) | (g DECLR)       p = `* Q* D`, a = `D[N]`, f = `D(void)`, g = `(D)`
+Q     := const | volatile | restrict | __restrict | __restrict__ | _Atomic      (type qualifiers after the `*`)
 E     := (v NAME) | (par E) | (deref E) | (addr E) | (mem E NAME) | (arrow E NAME) | (idx E N) | (add E N)
        | (cast DS DECLR E) | (call E)
 STO   := global | static | extern | tls | local | slocal | param
@@ -55,10 +56,15 @@ def asName : Sexp → Except String String
   | .atom a => .ok a
   | _ => .error "expected a name"
 
+def pqualOf? : Sexp → Except String PQual
+  | .atom "const" => .ok .const | .atom "volatile" => .ok .volatile | .atom "restrict" => .ok .restrict
+  | .atom "__restrict" => .ok .restrict2 | .atom "__restrict__" => .ok .restrict3 | .atom "_Atomic" => .ok .atomic
+  | _ => .error "bad pointer qualifier"
+
 def readDeclr : Nat → Sexp → Except String Declr
   | 0, _ => .error "fuel"
   | _, .atom "n" => .ok .name
-  | k + 1, .list [.atom "p", d] => do pure (.ptr (← readDeclr k d))
+  | k + 1, .list (.atom "p" :: d :: qs) => do pure (.ptr (← readDeclr k d) (← qs.mapM pqualOf?))
   | k + 1, .list [.atom "a", d, n] => do pure (.arr (← readDeclr k d) (← asNat n))
   | k + 1, .list [.atom "f", d] => do pure (.fn (← readDeclr k d))
   | k + 1, .list [.atom "g", d] => do pure (.paren (← readDeclr k d))
@@ -143,8 +149,15 @@ def primC : Prim → String
   | .int => "int" | .uint => "unsigned int" | .long => "long" | .ulong => "unsigned long" | .float => "float"
   | .double => "double" | .ldouble => "long double"
 
+def pqualC : PQual → String
+  | .const => "const" | .volatile => "volatile" | .restrict => "restrict" | .restrict2 => "__restrict"
+  | .restrict3 => "__restrict__" | .atomic => "_Atomic"
+
+/-- a qualifier is printed with a blank on either side (it is a keyword; every other token is a punctuator, a number
+    or the identifier, which is only ever preceded by a punctuator or a qualifier) -/
 def tokC (name : String) : C16Declr.DTok → String
   | .star => "*" | .lp => "(" | .rp => ")" | .ident => name | .lb => "[" | .num n => toString n | .rb => "]" | .void_ => "void"
+  | .qual q => " " ++ pqualC q ++ " "
 
 /-- the declarator around `name` (empty for a type name): the text of the token list `C16Declr.toks d`, the very list
     theorem `C16_declarator_tokens` is about -/
